@@ -583,8 +583,23 @@ class Exec:
         if callee == "mxGetScalar":
             return self.mx_get_scalar(v[0][1], mem)
         if callee == "mxCreateNumericArray":
-            # used by scalar(classid) with ndim=1, dims={1}: a zero-filled 1x1 array of the class (MEX contract)
-            return ("mx", Mx(v[2], bv(1, 64), bv(1, 64), mem.new("bytes", [bv(0, 8)] * 8)))
+            # MEX contract: zero-filled array of the class with the first `ndim` entries of dims; a one-dimensional
+            # request gives an M x 1 array (MATLAB pads the missing dimension with 1); ndim 1 or 2 only
+            ndim, dims, cls = v[0], v[1], v[2]
+            nd = z3.simplify(ndim)
+            d0 = self.load(mem, dims, "i64")
+            if z3.is_bv_value(nd) and nd.as_long() == 1:
+                n_ = bv(1, 64)                                   # dims[1] is not read (and need not exist)
+            else:
+                d1 = self.load(mem, ("ptr", dims[1], dims[2] + 8), "i64")
+                n_ = z3.If(z3.UGE(ndim, bv(2, ndim.size())), d1, bv(1, 64))
+            m_ = d0
+            cs = z3.simplify(cls)
+            if z3.is_bv_value(cs) and cs.as_long() == CLASS["DOUBLE"]:
+                data = mem.new("cells", z3.K(z3.BitVecSort(64), bv(0, 64)))
+            else:
+                data = mem.new("bytes", [bv(0, 8)] * 8)          # element 0 only: the scalar helpers
+            return ("mx", Mx(cls, z3.simplify(m_), z3.simplify(n_), data))
         if callee == "mxCreateNumericMatrix":
             return ("mx", Mx(v[2], v[0], v[1], mem.new("bytes", [bv(0, 8)] * 8)))
         if callee == "mxCreateDoubleScalar":
